@@ -49,7 +49,7 @@ MkVal(T, N, rank, dim, c, fam) ==
         ELSE IF rank = 1 THEN [k \in 1..dim |-> pick(f, i, k, 0)]
         ELSE [k \in 1..dim |-> [l \in 1..dim |-> pick(f, i, k, l)]]]]
 
-NFam == IF Tier = "quick" THEN 3 ELSE 24
+NFam == IF Tier = "quick" THEN 6 ELSE 24
 Shapes == {<<0, 1>>, <<1, 2>>, <<1, 3>>, <<2, 2>>} \cup (IF Tier = "quick" THEN {} ELSE {<<2, 3>>})
 
 FamInputs ==
